@@ -1,6 +1,7 @@
 package props
 
 import (
+	"context"
 	"encoding/json"
 	"fmt"
 	"math"
@@ -9,6 +10,7 @@ import (
 	"strings"
 	"testing"
 
+	"github.com/aundis/formula"
 	"github.com/ericlagergren/decimal"
 	"pgregory.net/rapid"
 
@@ -61,7 +63,61 @@ func checkExactFns(x decOperand) string {
 	if m := checkExactFnsSpelled(x, alt.lit(0)); m != "" {
 		return m
 	}
-	return checkExactFnsSpelled(x, "("+x.lit(0)+" * 1.00)")
+	if m := checkExactFnsSpelled(x, "("+x.lit(0)+" * 1.00)"); m != "" {
+		return m
+	}
+	return checkExactAcross(x)
+}
+
+// evalSteps evaluates the texts one after the other on one runner (over an empty
+// caller map) and returns the last outcome as a list.
+func evalSteps(texts ...string) ([]interface{}, string) {
+	r := formula.NewRunner()
+	r.SetThis(map[string]interface{}{})
+	var out obs.EvalOut
+	for _, tx := range texts {
+		p := obs.Parse([]byte(tx))
+		if !p.OK() {
+			return nil, fmt.Sprintf("HARNESS: %q does not parse: %v", tx, p.Err)
+		}
+		out = obs.Eval(r, context.Background(), p.Src.Expression)
+		if out.Panic != nil || out.Err != nil {
+			return nil, fmt.Sprintf("%s (after %q on the same runner) -> %s", tx, texts, out)
+		}
+	}
+	arr, ok := out.Val.([]interface{})
+	if !ok {
+		return nil, fmt.Sprintf("%q on one runner -> %s, want a list", texts, out)
+	}
+	return arr, ""
+}
+
+// checkExactAcross: the argument is a local bound by an earlier evaluation of the same runner
+// (directly, and handed on by unary plus / max) and used by later ones.
+func checkExactAcross(x decOperand) string {
+	xr, xl := x.rat(), x.lit(1)
+	steps := []string{"$x = " + xl, "$p = +$x", "$m = max($x, $x)", "[$x, $p, $m]", "[abs($x), ceil($p), floor($m), toInt($x) == toInt(" + xl + "), finite($p), $x, $p, $m]"}
+	arr, msg := evalSteps(steps...)
+	if msg != "" {
+		return msg
+	}
+	want := []*big.Rat{new(big.Rat).Abs(xr), intRat(ref.CeilRat(xr)), intRat(ref.FloorRat(xr)), nil, xr, xr, xr, xr}
+	names := []string{"abs($x)", "ceil($p)", "floor($m)", "toInt($x) == toInt(x)", "finite($p)", "$x", "$p", "$m"}
+	if len(arr) != len(want) {
+		return fmt.Sprintf("%q: wrong arity of result", steps)
+	}
+	for i, w := range want {
+		if w == nil {
+			if b, ok := arr[i].(bool); !ok || !b {
+				return fmt.Sprintf("after %q on one runner: %s = %s, want true", steps[:4], names[i], obs.Show(arr[i]))
+			}
+			continue
+		}
+		if !ratEq(arr[i], w) {
+			return fmt.Sprintf("after %q on one runner: %s = %s, want %s", steps[:4], names[i], obs.Show(arr[i]), ref.DecString(w))
+		}
+	}
+	return ""
 }
 
 func checkExactFnsSpelled(x decOperand, xl string) string {
@@ -356,6 +412,16 @@ func checkBits(a, b int64) string {
 		for i, w := range want {
 			if !ratEq(arr[i], new(big.Rat).SetInt64(w)) {
 				return fmt.Sprintf("a=%s b=%s: %s = %s, two's complement says %d", al, bl, names[i], obs.Show(arr[i]), w)
+			}
+		}
+	}
+	// the operands as locals bound by earlier evaluations of the same runner
+	if arr, msg := evalSteps("$a = "+lit(a), "$b = "+lit(b), "$a & $b", "[$a & $b, $a | $b, $a ^ $b, ~$a, ~$b, ~~$a, $a, $b]"); msg != "" {
+		return msg
+	} else {
+		for i, w := range append(append([]int64{}, want...), a, b) {
+			if i < len(arr) && !ratEq(arr[i], new(big.Rat).SetInt64(w)) {
+				return fmt.Sprintf("$a=%d and $b=%d bound by earlier evaluations on the same runner: element %d of [$a & $b, $a | $b, $a ^ $b, ~$a, ~$b, ~~$a, $a, $b] = %s, two's complement says %d", a, b, i, obs.Show(arr[i]), w)
 			}
 		}
 	}
